@@ -146,6 +146,8 @@ def main(tier, seed):
         corpus.append(("natural", progs.natural_pickle(rng)[0]))
     for _ in range(nmal):
         corpus.append(("malformed", asm.assemble(progs.malformed(rng))))
+    for label, data in progs.boundary_pickles():
+        corpus.append(("boundary", data))             # plain data at size boundaries (seeded round 7)
     datas = [d for _, d in corpus]
     B = 400
     batches = [datas[i:i + B] for i in range(0, len(datas), B)]
@@ -219,6 +221,7 @@ def main(tier, seed):
     # Trace.run passivity: model-free comparison on a sample (the model's statement is C09_trace_passive)
     tr_bad = []
     sample = [d for k, d in corpus if k in ("natural", "random", "corpus")][: (400 if tier == "quick" else 5000)]
+    sample += [d for k, d in corpus if k == "boundary"]
     for d in sample:
         why = oracle_trace(d)
         chk.count()
